@@ -484,6 +484,9 @@ impl Scenario for C18 {
             return p;
         }
         let mut p = Plan::new("C18", "interleaved-clients", seed, idx);
+        if rng.chance(1, 8) {
+            p.set("threads", 1 + rng.below(2) as i64);
+        }
         let nl = 3 + rng.below(6);
         let mut defs: Vec<Vec<f64>> = Vec::new();
         for i in 0..nl {
@@ -596,11 +599,19 @@ impl Scenario for C18 {
         let mut prev_kind = "";
         let mut prev_nonempty = false;
         let mut prev_op: Option<usize> = None;
+        let threads = plan.get("threads");
+        if threads != 0 {
+            st.inc("ops.histories-with-thread-hand-offs");
+        }
         for (i, op) in plan.ops.iter().enumerate() {
             if op.k == "def" {
                 lists.push(points_of(&op.a));
                 continue;
             }
+            // hand-offs between threads: with threads == 1 every operation runs on a freshly spawned thread, with 2 every
+            // other one (sequential hand-off; whatever the code keeps per thread starts from scratch there)
+            let on_thread = threads == 1 || (threads == 2 && i % 2 == 0);
+            let mut body = || -> Result<(), Violation> {
             st.inc("steps.ops_applied");
             if let Some(k) = PAIRS.idx(&op.k) {
                 if let Some(p) = prev_op {
@@ -619,7 +630,7 @@ impl Scenario for C18 {
             };
             match op.k.as_str() {
                 "owned" | "borrowed" => {
-                    let Some(pts) = getlist(op.iarg(0)) else { continue };
+                    let Some(pts) = getlist(op.iarg(0)) else { return Ok(()) };
                     let (len, mode) = (len_of(op.arg(1)), mode_of(op.iarg(2)));
                     let want = fresh(mode, pts, len);
                     if pts.is_empty() && prev_nonempty {
@@ -636,7 +647,7 @@ impl Scenario for C18 {
                             drop(c);
                             prev_kind = "borrowed";
                             prev_nonempty = !pts.is_empty();
-                            continue;
+                            return Ok(());
                         }
                         st.inc("ops.compute-borrowed");
                         // the conversions and the scalar accessors are part of "whichever API"
@@ -676,7 +687,7 @@ impl Scenario for C18 {
                                 x ^= x << 17;
                                 let d = ds[(x % n as u64) as usize];
                                 if d.is_nan() {
-                                    continue;
+                                    return Ok(());
                                 }
                                 let cold = c.to_owned_curve();
                                 let (a, b, cc) = (o.idx_of_dist(d), c.idx_of_dist(d), cold.idx_of_dist(d));
@@ -711,7 +722,7 @@ impl Scenario for C18 {
                     prev_kind = if op.k == "owned" { "owned" } else { "borrowed" };
                 }
                 "sp_new" => {
-                    let Some(pts) = getlist(op.iarg(1)) else { continue };
+                    let Some(pts) = getlist(op.iarg(1)) else { return Ok(()) };
                     let (len, mode) = (len_of(op.arg(2)), mode_of(op.iarg(3)));
                     let slider = HitObjectSlider { pos: Pos::new(0.0, 0.0), new_combo: false, combo_offset: 0, path: SliderPath::new(mode, pts.clone(), len), node_samples: Vec::new(), repeat_count: op.iarg(4).clamp(0, 5) as i32, velocity: 1.25 };
                     let obj = HitObject { start_time: 1000.0, kind: HitObjectKind::Slider(slider), samples: Vec::new() };
@@ -722,7 +733,7 @@ impl Scenario for C18 {
                     // dst = src.clone()  /  dst.clone_from(&src): afterwards dst must behave exactly like src
                     let (d, sidx) = (op.iarg(0).rem_euclid(4) as usize, op.iarg(1).rem_euclid(4) as usize);
                     if d == sidx || slots[sidx].is_none() {
-                        continue;
+                        return Ok(());
                     }
                     st.inc("ops.clone-slider");
                     let (src_obj, src_mode, src_pts, src_len) = {
@@ -763,9 +774,9 @@ impl Scenario for C18 {
                 }
                 k @ ("sp_curve" | "sp_curve_bufs" | "sp_borrowed" | "sp_duration" | "sp_end_time" | "sp_push" | "sp_pop" | "sp_set" | "sp_settype" | "sp_len" | "sp_clear" | "sp_swap" | "sp_reverse" | "sp_churn") => {
                     let si = op.iarg(0).rem_euclid(4) as usize;
-                    let Some(slot) = slots[si].as_mut() else { continue };
+                    let Some(slot) = slots[si].as_mut() else { return Ok(()) };
                     if !matches!(slot.obj.kind, HitObjectKind::Slider(_)) {
-                        continue;
+                        return Ok(());
                     }
                     let want = fresh(slot.mode, &slot.pts, slot.len);
                     match k {
@@ -929,6 +940,13 @@ impl Scenario for C18 {
                 }
                 _ => {}
             }
+                Ok(())
+            };
+            if on_thread {
+                crate::engine::on_fresh_thread(body)?;
+            } else {
+                body()?;
+            }
         }
         st.outcome = h.finish();
         Ok(())
@@ -948,6 +966,7 @@ impl Scenario for C18 {
             "ops.mutate-points",
             "ops.mutate-length",
             "ops.mutate-churn",
+            "ops.histories-with-thread-hand-offs",
             "ops.lookup-histories",
             "ops.decoded-map-edits",
             "ops.clear-cache",
